@@ -3,6 +3,6 @@ Require Extraction.
 Require Import ExtrOcamlBasic.
 From LLB Require Import Base.Bytes Queue.Lanes Queue.ProcStatus Queue.Env.
 Extraction "extracted/Model_queue.ml" init step accepts first_reject terminal
-  sinit sstep saccepts sfirst_reject slost
+  sinit sstep_gen saccepts_gen sfirst_reject slost
   status_of_wait launch_outcome raw_of_fate status_of_fate
   build_env build_env_v0 sources render getenv lookup.
